@@ -3,7 +3,7 @@
     (TRUSTED: distinct lists give independent outputs).  What is proved is what the code is responsible
     for: which data reach the oracle, in which order and framing.  Statements only. *)
 From Coq Require Import List Arith NArith Bool.
-From BP Require Import Model.Codec Model.Transcript Model.Nonce Proofs.TranscriptP Proofs.SameLogP Crypto.Strobe Proofs.StrobeP.
+From BP Require Import Model.Codec Model.Transcript Model.Nonce Proofs.TranscriptP Proofs.SameLogP Crypto.Strobe Proofs.StrobeP Model.MerlinOps Proofs.MerlinOpsP.
 Import ListNotations.
 Open Scope N_scope.
 
@@ -74,6 +74,23 @@ Print Assumptions C04_merlin_challenge_framed.
 Theorem C04_merlin_rekey_framed : forall label w s, r_rekey label w s = key w (meta_ad (label ++ le32 (List.length w)) false s).
 Proof. exact r_rekey_framed. Qed.
 Print Assumptions C04_merlin_rekey_framed.
+
+(** the model's operation lists interpreted by the Gallina Merlin (Model/MerlinOps.run_ops; compared with the real merlin's challenge bytes by this check):
+    the challenges handed out while a prefix of the operations was applied do not depend on what is applied afterwards, a challenge is squeezed from the
+    state reached by exactly the operations before it, and the RNG operations (which work on a clone) are invisible to the transcript *)
+Theorem C04_challenges_of_prefix : forall s a b, exists later, snd (run_ops s (a ++ b)) = snd (run_ops s a) ++ later.
+Proof. exact challenges_of_prefix. Qed.
+Print Assumptions C04_challenges_of_prefix.
+
+Theorem C04_challenge_after_prefix : forall s a l n,
+  snd (run_ops s (a ++ [OChal l n])) = snd (run_ops s a) ++ [snd (t_challenge (label_bytes l) n (fst (run_ops s a)))].
+Proof. exact challenge_after_prefix. Qed.
+Print Assumptions C04_challenge_after_prefix.
+
+Theorem C04_rng_operations_leave_the_transcript : forall s ops, run_ops s (filter (fun o => negb (is_rng_op o)) ops) = run_ops s ops.
+Proof. exact rng_ops_invisible. Qed.
+Print Assumptions C04_rng_operations_leave_the_transcript.
+
 
 Example C04_ex : exists l, verifier_ops (mkTstmt 8 1 5 [6] [7; 8] [None; Some 3]) (mkProof 1 [9] 10 11 12 13 14 [15] [16]) = Some l.
 Proof. eexists. reflexivity. Qed.
